@@ -1,9 +1,8 @@
 package main
 
-func genFormulas(repo string) (string, map[string]string, error) {
-	return "(* GENERATED placeholder *)\n", map[string]string{}, nil
-}
-
+// genConsts: T-const — constants (labels, limits, tags, parameters). Placeholder.
 func genConsts(repo string) (string, map[string]string, error) {
 	return "(* GENERATED placeholder *)\n", map[string]string{}, nil
 }
+
+func init() { register("Consts", genConsts) }
